@@ -1,6 +1,6 @@
 (* C07 — TaskGroup.start(): readiness handshake is exact and loses nothing.
    This file contains only statements closed by `exact` and their Print Assumptions. *)
-From AV Require Import Base Machine GroupInv GroupInv2 GroupThmsPure GroupThms GroupThms6 GroupThms7 GroupThms8 GroupThms10 GroupThms11 GroupThms13 GroupThms14.
+From AV Require Import Base Machine GroupInv GroupInv2 GroupThmsPure GroupThms GroupThms6 GroupThms7 GroupThms8 GroupThms10 GroupThms11 GroupThms13 GroupThms14 GroupThms15.
 From AV Require TreeStep.
 
 Theorem C07_start_returns_started_value : forall s t g c f h v, reach s -> k_ctl (tasks s t) = CStartWait g c f ->
@@ -145,3 +145,49 @@ Theorem C07_start_join_step : forall tj fj scj ch ej s o, reach s -> jok tj scj 
    (f_st (futs (fst (step s o)) fj) = f_st (futs s fj) \/ exists v, f_st (futs (fst (step s o)) fj) = FRes v)).
 Proof. exact step_jr. Qed.
 Print Assumptions C07_start_join_step.
+
+(* F20. The starter t waits for started() of child c; the child's handle is no longer pending and the start future
+   holds the exception e' the child handed over.  Then the step that resumes the starter returns RExc e' - whether or
+   not a native cancellation of the starter is pending (k_must): start() raises the child's error. *)
+Theorem C07_start_raises_routed_exception : forall s t g c f e' h, reach s ->
+  k_ctl (tasks s t) = CStartWait g c f -> handle_pending s c = false -> f_st (futs s f) = FExc e' ->
+  In h (ready s) -> (h = HStep t \/ exists f', h = HWake t f') ->
+  h = HWake t f /\ snd (step s (ARun h)) = RExc e'.
+Proof. exact start_raises_routed_exception. Qed.
+Print Assumptions C07_start_raises_routed_exception.
+
+(* F20 before the fix (step_old = the step with the old CStartWait branch, GroupThms15.v): a run in which the child's
+   error EErr 7 is in no result, in no group's collected errors, held by no live task and in no future a live task
+   waits on; on the fixed machine the same run makes start() and then the task group raise it *)
+Theorem C07_start_error_lost_before_fix_refuted :
+  exists ops,
+    let '(s, outs) := run_ops step_old init ops in
+    k_done (tasks s 2) = Some (OExc (EErr 7)) /\ k_tdran (tasks s 2) = true /\
+    f_st (futs s 4) = FExc (EErr 7) /\ k_startfut (tasks s 2) = Some 4 /\
+    forallb (fun r => negb (res_has_err 7 r)) outs = true /\ err_visible 7 s = false /\
+    err_visible 7 (final step_old init (firstn 10 ops)) = false /\
+    k_ctl (tasks s 1) = CDone /\ k_ctl (tasks s 2) = CDone /\
+    nth 9 (snd (run_ops step init ops)) RNone = RExc (EErr 7) /\
+    nth 11 (snd (run_ops step init ops)) RNone = RExc (EGroup [EErr 7]).
+Proof. exact start_error_lost_before_fix_refuted. Qed.
+Print Assumptions C07_start_error_lost_before_fix_refuted.
+
+(* the pre-fix step differs from the step only where a starter is resumed while its start future holds an exception *)
+Theorem C07_step_old_eq : forall s o,
+  (forall t g c f e, k_ctl (tasks s t) = CStartWait g c f -> f_st (futs s f) <> FExc e) ->
+  step_old s o = step s o.
+Proof. exact step_old_eq. Qed.
+Print Assumptions C07_step_old_eq.
+
+(* F20. The error e of a finished member t (task_done has run) is among the errors collected by its group, or it
+   sits in t's start future - and then every starter still waiting on that future raises exactly e in the step that
+   resumes it, whether or not it has been natively cancelled in between *)
+Theorem C07_start_no_error_lost_raised : forall s g t e, reach s -> In t (g_ever (groups s g)) ->
+  k_tdran (tasks s t) = true -> k_done (tasks s t) = Some (OExc e) ->
+  In e (map snd (g_excs (groups s g))) \/
+  exists f, k_startfut (tasks s t) = Some f /\ f_st (futs s f) = FExc e /\
+    forall t' g' c h, k_ctl (tasks s t') = CStartWait g' c f -> In h (ready s) ->
+      (h = HStep t' \/ exists f', h = HWake t' f') ->
+      c = t /\ h = HWake t' f /\ snd (step s (ARun h)) = RExc e.
+Proof. exact start_no_error_lost_raised. Qed.
+Print Assumptions C07_start_no_error_lost_raised.
